@@ -1005,7 +1005,15 @@ class WorkerPool:
             if not keep_alive:
                 for wid, worker_process in enumerate(self._workers):
                     try:
-                        worker_process.join()
+                        # A worker can be busy with its exit function for a long time. In the meantime something can
+                        # go wrong elsewhere (e.g., the exit function of another worker timed out or raised), in which
+                        # case we shouldn't keep waiting here, but terminate the remaining workers
+                        while not self._worker_comms.exception_thrown():
+                            worker_process.join(timeout=0.01)
+                            if not worker_process.is_alive():
+                                break
+                        if self._worker_comms.exception_thrown():
+                            self._handle_exception()
                     except ValueError:
                         raise
                     # Added since Python 3.7. This will clean up any resources that are left. For some reason though,
